@@ -106,6 +106,15 @@ pub fn check_state(sim: &mut Sim, snap: &VerifSnapshot, m: Mon, ex: &mut Exercis
     let mut v: Vec<Viol> = Vec::new();
     let st = |j: usize| -> &JobState { &snap.jobs[j].state };
 
+    if on(m, 5) && sim.aborted {
+        // "once it reports finished nothing is ready or running" holds for an aborted evaluation too
+        if fin && !ready.is_empty() {
+            v.push(viol("C05", "finished-but-ready", format!("finished (after abort) but ready set {:?}", ready)));
+        }
+        if fin && !running.is_empty() {
+            v.push(viol("C05", "finished-but-running", format!("finished (after abort) but running {:?}", running)));
+        }
+    }
     if on(m, 5) && !sim.aborted {
         ex.hit("C05.state");
         if !fin && ready.is_empty() && running.is_empty() {
@@ -169,7 +178,7 @@ pub fn check_state(sim: &mut Sim, snap: &VerifSnapshot, m: Mon, ex: &mut Exercis
             if state_kind(st(j)) != g.jobs[j].kind {
                 v.push(viol("C17", "kind-changed", format!("{} declared {:?} state {:?}", id, g.jobs[j].kind, st(j))));
             }
-            if ready.contains(id) != is_ready_state(st(j)) && !sim.aborted {
+            if ready.contains(id) != is_ready_state(st(j)) {
                 v.push(viol("C17", "ready-set-vs-state", format!("{} ready-set {} vs state {:?}", id, ready.contains(id), st(j))));
             }
             if ready.contains(id) && sim.started[j] {
